@@ -57,7 +57,7 @@ func genC14(seed uint64, tier string) any {
 		var out []string
 		for k := r.Range(1, 5); k > 0 && budget > 0; k-- {
 			budget--
-			out = append(out, simnet.Pick(r, []string{"inc", "inc", "inc", "load", "basic"}))
+			out = append(out, simnet.Pick(r, []string{"inc", "inc", "inc", "load", "basic", "set1", "set2", "set1"}))
 		}
 		return out
 	}
@@ -86,7 +86,8 @@ type c14In struct {
 
 type c14Out struct {
 	Counts map[string]int
-	Basic  int // StdoutSize as seen by a load
+	Basic  int    // StdoutSize as seen by a load
+	Detail string // Detail as seen by a load
 	Err    string
 }
 
@@ -126,10 +127,11 @@ func bump(owner string) func(*workceptor.StatusFileData) {
 type c14State struct {
 	counts map[string]int
 	basic  int
+	detail string // a plain register: the last "set" wins
 }
 
 func (s c14State) clone() c14State {
-	n := c14State{counts: map[string]int{}, basic: s.basic}
+	n := c14State{counts: map[string]int{}, basic: s.basic, detail: s.detail}
 	for k, v := range s.counts {
 		n.counts[k] = v
 	}
@@ -151,11 +153,15 @@ var c14Model = porcupine.Model{
 			n := st.clone()
 			n.basic++
 			return out.Err == "", n
+		case "set1", "set2":
+			n := st.clone()
+			n.detail = in.Op
+			return out.Err == "", n
 		default: // load
 			if out.Err != "" {
 				return false, st
 			}
-			if out.Basic != st.basic {
+			if out.Basic != st.basic || out.Detail != st.detail {
 				return false, st
 			}
 			for k, v := range st.counts {
@@ -173,7 +179,7 @@ var c14Model = porcupine.Model{
 	},
 	Equal: func(a, b interface{}) bool {
 		x, y := a.(c14State), b.(c14State)
-		if x.basic != y.basic || len(x.counts) != len(y.counts) {
+		if x.basic != y.basic || x.detail != y.detail || len(x.counts) != len(y.counts) {
 			return false
 		}
 		for k, v := range x.counts {
@@ -219,8 +225,14 @@ func runC14(t *testing.T, planAny any, res *simnet.Result) {
 		return
 	}
 	statusReal := unit.StatusFileName()
+	initialDetail := ""
 	if p.Fresh {
 		_ = os.Truncate(statusReal, 0)
+	} else {
+		first := &workceptor.StatusFileData{}
+		if first.Load(statusReal) == nil {
+			initialDetail = first.Detail
+		}
 	}
 	sched := simwork.NewSched(res.Seed)
 	verifhook.SetStepHandler(sched.Step)
@@ -251,8 +263,9 @@ func runC14(t *testing.T, planAny any, res *simnet.Result) {
 			}
 		}
 		sched.Go(owner, false, func(tk *simwork.Task) {
+			// the process keeps its record object between updates, as the command runner does
+			sfd := &workceptor.StatusFileData{}
 			for _, op := range ops {
-				sfd := &workceptor.StatusFileData{}
 				call := tk.Begin()
 				out := c14Out{}
 				switch op {
@@ -262,7 +275,12 @@ func runC14(t *testing.T, planAny any, res *simnet.Result) {
 					}
 				case "basic":
 					// what the command runner does: touches state/detail/size only (size used as a counter here)
-					if err := sfd.UpdateFullStatus(path, func(s *workceptor.StatusFileData) { s.StdoutSize++; s.Detail = "tick" }); err != nil {
+					if err := sfd.UpdateFullStatus(path, func(s *workceptor.StatusFileData) { s.StdoutSize++ }); err != nil {
+						out.Err = err.Error()
+					}
+				case "set1", "set2":
+					// an absolute assignment, repeated verbatim (the runner's periodic "Running" report)
+					if err := sfd.UpdateFullStatus(path, func(s *workceptor.StatusFileData) { s.Detail = op }); err != nil {
 						out.Err = err.Error()
 					}
 				default:
@@ -273,7 +291,7 @@ func runC14(t *testing.T, planAny any, res *simnet.Result) {
 							out.Counts = map[string]int{}
 						}
 					} else {
-						out.Counts, out.Basic = counts(sfd.ExtraData), int(sfd.StdoutSize)
+						out.Counts, out.Basic, out.Detail = counts(sfd.ExtraData), int(sfd.StdoutSize), sfd.Detail
 					}
 				}
 				ret := tk.End()
@@ -303,7 +321,12 @@ func runC14(t *testing.T, planAny any, res *simnet.Result) {
 						out.Err = err.Error()
 					}
 				case "basic":
-					theUnit.UpdateFullStatus(func(s *workceptor.StatusFileData) { s.StdoutSize++; s.Detail = "tick" })
+					theUnit.UpdateFullStatus(func(s *workceptor.StatusFileData) { s.StdoutSize++ })
+					if err := theUnit.LastUpdateError(); err != nil {
+						out.Err = err.Error()
+					}
+				case "set1", "set2":
+					theUnit.UpdateFullStatus(func(s *workceptor.StatusFileData) { s.Detail = op })
 					if err := theUnit.LastUpdateError(); err != nil {
 						out.Err = err.Error()
 					}
@@ -314,7 +337,7 @@ func runC14(t *testing.T, planAny any, res *simnet.Result) {
 						theUnit.GetStatusLock().RLock()
 						cp := theUnit.GetStatusCopy()
 						theUnit.GetStatusLock().RUnlock()
-						out.Counts, out.Basic = counts(cp.ExtraData), int(cp.StdoutSize)
+						out.Counts, out.Basic, out.Detail = counts(cp.ExtraData), int(cp.StdoutSize), cp.Detail
 					}
 				}
 				ret := tk.End()
@@ -371,7 +394,9 @@ func runC14(t *testing.T, planAny any, res *simnet.Result) {
 		}
 	}
 	if len(res.Violations) == 0 && len(history) > 0 {
-		r := porcupine.CheckOperationsTimeout(c14Model, history, 30*time.Second)
+		model := c14Model
+		model.Init = func() interface{} { return c14State{counts: map[string]int{}, detail: initialDetail} }
+		r := porcupine.CheckOperationsTimeout(model, history, 30*time.Second)
 		switch r {
 		case porcupine.Illegal:
 			b, _ := json.Marshal(describe(history))
@@ -408,7 +433,7 @@ func describe(h []porcupine.Operation) []string {
 			for _, k := range ks {
 				parts = append(parts, fmt.Sprintf("%s=%d", k, o.Counts[k]))
 			}
-			s += fmt.Sprintf(" -> {%s} size=%d", strings.Join(parts, ","), o.Basic)
+			s += fmt.Sprintf(" -> {%s} size=%d detail=%q", strings.Join(parts, ","), o.Basic, o.Detail)
 		}
 		if o.Err != "" {
 			s += " ERR " + o.Err
